@@ -86,11 +86,24 @@ fn digest(args: &[String]) -> i32 {
     let nshards: u64 = args[4].parse().unwrap();
     let runs: u64 = args[5].parse().unwrap();
     let ctx = case::Ctx::new();
-    let mut i = shard;
-    while i < runs {
+    let evolving = family == "KE";
+    let indices: Vec<u64> = if evolving {
+        conc::ke_indices(runs, shard, nshards)
+    } else {
+        (shard..runs).step_by(nshards as usize).collect()
+    };
+    let mut evolve = conc::Evolve::default();
+    for i in indices {
         let rs = driver::run_seed(seed, family, i);
-        let (mut c, g) = case::Case::generate(family, rs, i, props);
+        let (mut c, g) = if evolving {
+            (case::Case::Conc(evolve.next(i, rs, &case::gen_opts(props))), None)
+        } else {
+            case::Case::generate(family, rs, i, props)
+        };
         let out = c.run(&ctx, props, g);
+        if let (true, case::Case::Conc(cc)) = (evolving, &c) {
+            evolve.feedback(i, cc, &out.state_hashes);
+        }
         let mut h = rng::Hasher::default();
         h.add(out.hash);
         h.add(out.nontrivial as u64);
@@ -109,7 +122,6 @@ fn digest(args: &[String]) -> i32 {
         }
         h.add_bytes(c.to_json().to_string().as_bytes());
         println!("{family} {i} {:016x}", h.finish());
-        i += nshards;
     }
     0
 }
@@ -128,10 +140,20 @@ fn dev(args: &[String]) -> i32 {
     let mut counters = BTreeMap::<String, u64>::new();
     let mut nontrivial = 0;
     let dump = std::env::var("LLSIM_DUMP").ok();
-    for i in 0..n {
+    let evolving = family == "KE";
+    let indices: Vec<u64> = if evolving { conc::ke_indices(n, 0, 1) } else { (0..n).collect() };
+    let mut evolve = conc::Evolve::default();
+    for i in indices {
         let rs = driver::run_seed(seed, family, i);
-        let (mut c, g) = case::Case::generate(family, rs, i, props);
+        let (mut c, g) = if evolving {
+            (case::Case::Conc(evolve.next(i, rs, &case::gen_opts(props))), None)
+        } else {
+            case::Case::generate(family, rs, i, props)
+        };
         let out = c.run(&ctx, props, g);
+        if let (true, case::Case::Conc(cc)) = (evolving, &c) {
+            evolve.feedback(i, cc, &out.state_hashes);
+        }
         nontrivial += out.nontrivial as u64;
         for (k, v) in out.counters {
             *counters.entry(k).or_default() += v;
